@@ -34,6 +34,15 @@ def load_units():
     return registry.all_units()
 
 
+LEVELS = {"C16": "other"}
+
+
+def registry_mod():
+    from spec import registry
+
+    return registry
+
+
 def sh(cmd, timeout=600, env=None):
     try:
         p = subprocess.run(cmd, shell=True, capture_output=True, text=True, timeout=timeout, env=env)
@@ -65,10 +74,10 @@ def main() -> int:
     seed = int(os.environ.get("VERIF_SEED", "0") or 0)
     t0 = time.time()
     units = [u for u in load_units() if prop in u.props]
-    if not units:
+    if not units and prop not in getattr(registry_mod(), "NATIVE_SOURCES", {}):
         print(f"no unit carries obligations of {prop}")
         return 3
-    results = run_units(units, None, args.jobs)
+    results = run_units(units, None, args.jobs) if units else []
     findings_doc = json.load(open(os.path.join(HERE, "known_findings.json")))
     findings = findings_doc["findings"]
     baseline = {}
@@ -87,6 +96,22 @@ def main() -> int:
                 obls.append(o)
             else:
                 supporting.append(o)
+    # exhaustive native enumerations (finite domains) contribute obligations too
+    native_info = []
+    for script in getattr(registry_mod(), "NATIVE_SOURCES", {}).get(prop, []):
+        from replay import driver
+
+        code, out = driver.run_native(script, timeout=300, full=True)
+        try:
+            doc = json.loads(out[out.index("{"):])
+        except Exception:
+            crashed.append({"unit": script, "error": out[-500:], "status": "crash"})
+            continue
+        native_info.append({"script": script, "exhaustive": doc.get("exhaustive"), "domain": doc.get("domain"), "obligations": len(doc["obligations"])})
+        for o in doc["obligations"]:
+            if prop in o["props"]:
+                obls.append({"name": o["name"], "path": "", "props": o["props"], "verdict": o["verdict"], "ms": 0, "hyps": 0, "backend": "runtime-contract-enumeration",
+                             "unit": script, "model": {"detail": o.get("detail", "")}})
     covers = [o for o in obls if o.get("kind") == "cover"]
     goals = [o for o in obls if o.get("kind") != "cover"]
     proved = [o for o in goals if o["verdict"] == "proved"]
@@ -173,7 +198,7 @@ def main() -> int:
     wall = round(time.time() - t0, 2)
     n_known = sum(len(v[1]) for v in known_hits.values())
     ev = {
-        "property_id": prop, "tier": tier, "seed": seed, "level": "proof",
+        "property_id": prop, "tier": tier, "seed": seed, "level": LEVELS.get(prop, "proof"),
         "coverage": {
             # obligations attributed to a listed known finding are itemised separately (they are *not* discharged and
             # the property is then not proved on this tree); `obligations` counts the remaining ones
@@ -193,6 +218,7 @@ def main() -> int:
             "by_backend": by_backend,
             "solver_time_s": round(sum(o["ms"] for o in obls) / 1000.0, 2),
             "reach_covers": {"total": len(covers), "vacuous": len(vacuous)},
+            "exhaustive_enumerations": native_info,
             "extraction_drops": front.EXTRACTION_DROPS,
             "assumed_contracts": registry.ASSUMED_CONTRACTS,
             "supporting_obligations": {"total": len(supporting), "discharged": len([o for o in supporting if o["verdict"] in ("proved", "reachable")]),
